@@ -4,7 +4,7 @@
    (gen/Scalar.v, gen/HxDispatch.v), over Coq's real numbers. *)
 From Coq Require Import Reals Bool.
 From OP Require Import gen.Consts gen.HxDispatch gen.Scalar model.HX
-  proofs.HXBase proofs.HXBranch proofs.HXShell proofs.HXFull proofs.HXSecant proofs.HXRefute proofs.HXLeCF proofs.HXLeCF2 proofs.LMTD.
+  proofs.HXBase proofs.HXBranch proofs.HXShell proofs.HXFull proofs.HXSecant proofs.HXRefute proofs.HXLeCF proofs.HXLeCF2 proofs.HXRange2 proofs.LMTD.
 Local Open Scope R_scope.
 
 (* Every arrangement the library names, passed as the enum member or as its text, reaches its own branch of HX_Eff and
@@ -163,7 +163,47 @@ Theorem C20_eff_range_CrFMM : forall f N c P, 0 < N -> 0 <= c <= 1 -> 0 < P -> 0
 Proof. exact HX_eff_range_CrFMM. Qed.
 Print Assumptions C20_eff_range_CrFMM.
 
-(* OPEN: range and monotonicity in NTU of the 20-term series (CrFUU):
-     forall N c, 0 < N -> 0 < c <= 1 -> 0 < eff_CrFUU N c < 1   and
-     forall N1 N2 c, 0 < N1 -> N1 < N2 -> 0 < c <= 1 -> eff_CrFUU N1 c <= eff_CrFUU N2 c
-   are not proved (only the refutation of `<= counter flow` above and the sweep on every run). *)
+(* for c > 0 the CondEvap formula (which ignores c) lies strictly ABOVE counter flow at the same c: for this arrangement
+   "never exceeds the counter-flow value" holds only against counter flow at c = 0 (previous theorem), which is how the
+   sweep evaluates it *)
+Theorem C20_eff_CondEvap_above_cf_same_c : forall N c, 0 < N -> 0 < c <= 1 -> eff_CF N c < eff_CondEvap N c.
+Proof. exact eff_CF_lt_CondEvap. Qed.
+Print Assumptions C20_eff_CondEvap_above_cf_same_c.
+
+(* range of the 20-term series of cross flow both unmixed AS IT IS in the source (inner sum stops at j = i - 1, D15), for
+   every NTU >= 0 and every c >= 0:  (1 - e^{-N}) e^{-cN} <= eps <= 1 - e^{-N}  (the upper bound is counter flow at c = 0);
+   so 0 < eps < 1 for NTU > 0.  The generated expression is first proved equal to a generic double sum. *)
+Theorem C20_eff_CrFUU_bounds : forall N c, 0 <= N -> 0 <= c -> (1 - exp (- N)) * exp (- (c * N)) <= eff_CrFUU N c <= 1 - exp (- N).
+Proof. exact eff_CrFUU_bounds. Qed.
+Print Assumptions C20_eff_CrFUU_bounds.
+Theorem C20_eff_range_CrFUU_branch : forall N c, 0 < N -> 0 <= c -> 0 < eff_CrFUU N c < 1.
+Proof. exact eff_CrFUU_range. Qed.
+Print Assumptions C20_eff_range_CrFUU_branch.
+
+(* effectiveness lies in (0,1) for EVERY arrangement (the two numerically inverted ones included), either label form,
+   every NTU > 0, every c in [0,1], any passes P > 0 *)
+Theorem C20_eff_range_all : forall a f N c P, 0 < N -> 0 <= c <= 1 -> 0 < P -> 0 < HX_Eff_R (mk_label a f) N c P < 1.
+Proof. exact HX_eff_range_all. Qed.
+Print Assumptions C20_eff_range_all.
+
+(* the 20-term series of cross flow both unmixed, as it is in the source, is STRICTLY increasing in NTU on [0, oo) for every
+   c in [0,1]: its NTU-derivative is e^{-(1+c)N} (e^{cN} - (S' - (1+c) S)) and S' - (1+c) S <= e^{cN} - 1 (row-wise
+   coefficient identities of the series, AM-GM on the boundary terms, partial sums of exp below exp) *)
+Theorem C20_eff_monotone_CrFUU_branch : forall N1 N2 c, 0 <= N1 -> N1 < N2 -> 0 <= c <= 1 -> eff_CrFUU N1 c < eff_CrFUU N2 c.
+Proof. exact eff_CrFUU_mono. Qed.
+Print Assumptions C20_eff_monotone_CrFUU_branch.
+
+(* effectiveness strictly increases with NTU for every arrangement except cross flow both mixed (refuted above, D34),
+   either label form, every c in [0,1], any passes P > 0 *)
+Theorem C20_eff_monotone_all : forall a f N1 N2 c P, mono_form a = true -> 0 < N1 -> N1 < N2 -> 0 <= c <= 1 -> 0 < P ->
+  HX_Eff_R (mk_label a f) N1 c P < HX_Eff_R (mk_label a f) N2 c P.
+Proof. exact HX_eff_monotone_all. Qed.
+Print Assumptions C20_eff_monotone_all.
+Theorem C20_mono_form_spec : forall a, mono_form a = true <-> a <> hx_CrFMM.
+Proof. exact mono_form_spec. Qed.
+Print Assumptions C20_mono_form_spec.
+
+(* Nothing of "range / monotone in NTU / never exceeds counter flow" is OPEN any more: for each of the eight arrangements
+   every clause is either proved for all NTU > 0, c in [0,1] (theorems above) or refuted by an interval-checked witness
+   (D15: CrFUU exceeds counter flow; D34: CrFMM is not monotone).  CondEvap is compared with counter flow at c = 0.
+   Still outside the theorems: convergence of the secant inversion (only its postcondition), IEEE rounding. *)
